@@ -26,9 +26,10 @@ def cell(r):
 
 def main():
     seeded = load("cross_*.json")
-    for name, row in load("seeded_results.json").items():
-        for c, r in row.items():
-            seeded.setdefault(name, {})[c] = r  # later, targeted runs override
+    for pat in ("seeded_results.json", "final_own.json"):
+        for name, row in load(pat).items():
+            for c, r in row.items():
+                seeded.setdefault(name, {})[c] = r  # later, targeted runs override (final_own.json: last full pass with the final checks)
     checks = ["C%02d" % i for i in range(1, 21)]
     out = ["# Seeded defects", "",
            "Each directory `Cnn-k/` holds a change to DotFox/edn.c written by a fresh sub-agent that was given only the text of property Cnn and",
